@@ -20,9 +20,81 @@ import textwrap
 import threading
 
 
+class StepHang(Exception):
+    """a step did not return: unstepped code blocks on a lock held by a paused virtual thread"""
+
+
+class deadline:
+    """`with deadline(s):` raises StepHang in the main thread after s seconds (SIGALRM)."""
+
+    def __init__(self, seconds: int):
+        self.seconds = seconds
+
+    def __enter__(self):
+        import signal
+
+        def onalarm(signum, frame):
+            raise StepHang(f"no progress for {self.seconds} s")
+        self.old = signal.signal(signal.SIGALRM, onalarm)
+        signal.alarm(self.seconds)
+        return self
+
+    def __exit__(self, *a):
+        import signal
+        signal.alarm(0)
+        signal.signal(signal.SIGALRM, self.old)
+        return False
+
+
+_STEPPERS: dict = {}
+
+
+def _ls_call(obj, name, *args, **kw):
+    """`self.<name>(...)` inside a stepped function: step the callee too when it is a
+    plain method with source (so that its lines and its lock are scheduled), else call it."""
+    func = None
+    for klass in type(obj).__mro__:
+        if name in klass.__dict__:
+            func = klass.__dict__[name]
+            break
+    if inspect.isfunction(func) and name not in getattr(obj, "__dict__", {}):
+        key = func.__code__
+        if key not in _STEPPERS:
+            try:
+                _STEPPERS[key] = stepper(func, klass.__name__ if "__" in inspect.getsource(func) else None, True)
+            except Exception:  # noqa
+                _STEPPERS[key] = None
+        st = _STEPPERS[key]
+        if st is not None:
+            return (yield from st(obj, *args, **kw))
+    return getattr(obj, name)(*args, **kw)
+    yield  # pragma: no cover  (makes this a generator)
+
+
+class _CallInliner(ast.NodeTransformer):
+    """self.m(...) -> (yield from _ls_call(self, 'm', ...)); does not enter nested scopes"""
+
+    def visit_Lambda(self, node):
+        return node
+
+    visit_ListComp = visit_SetComp = visit_DictComp = visit_GeneratorExp = visit_Lambda
+    visit_FunctionDef = visit_AsyncFunctionDef = visit_ClassDef = visit_Lambda
+
+    def visit_Call(self, node):
+        self.generic_visit(node)
+        f = node.func
+        if isinstance(f, ast.Attribute) and isinstance(f.value, ast.Name) and f.value.id == "self" \
+                and not any(isinstance(a, ast.Starred) for a in node.args) and all(k.arg for k in node.keywords):
+            new = ast.YieldFrom(ast.Call(ast.Name("_ls_call", ast.Load()),
+                                         [ast.Name("self", ast.Load()), ast.Constant(f.attr)] + node.args, node.keywords))
+            return ast.copy_location(new, node)
+        return node
+
+
 class _Yielder(ast.NodeTransformer):
-    def __init__(self):
+    def __init__(self, inline_calls=False):
         self.n = 0
+        self.inline_calls = inline_calls
 
     def _block(self, stmts):
         out = []
@@ -38,6 +110,14 @@ class _Yielder(ast.NodeTransformer):
                 continue
             y = ast.Expr(ast.Yield(ast.Tuple([ast.Constant("line"), ast.Constant(getattr(s, "lineno", 0))], ast.Load())))
             out.append(ast.copy_location(y, s))
+            if not self.inline_calls:
+                pass
+            elif isinstance(s, (ast.If, ast.While)):
+                s.test = _CallInliner().visit(s.test)
+            elif isinstance(s, ast.For):
+                s.iter = _CallInliner().visit(s.iter)
+            elif not isinstance(s, (ast.Try, ast.With, ast.FunctionDef, ast.ClassDef)):
+                s = _CallInliner().visit(s)
             out.append(s)
         return out
 
@@ -90,7 +170,7 @@ class _Yielder(ast.NodeTransformer):
         return out
 
 
-def stepper(func, cls_name: str | None = None):
+def stepper(func, cls_name: str | None = None, inline_calls: bool = False):
     """generator version of `func` (same globals), yielding before each statement;
     `cls_name`: compile inside a class of that name so that `self.__x` is mangled as in the original"""
     f = getattr(func, "__func__", func)
@@ -98,11 +178,12 @@ def stepper(func, cls_name: str | None = None):
     tree = ast.parse(src)
     fn = tree.body[0]
     assert isinstance(fn, ast.FunctionDef)
-    _Yielder().visit(fn)
+    _Yielder(inline_calls).visit(fn)
     if cls_name:
         tree.body = [ast.ClassDef(cls_name, [], [], [fn], [])]
     ast.fix_missing_locations(tree)
     ns: dict = {}
+    f.__globals__.setdefault("_ls_call", _ls_call)
     exec(compile(tree, f"<stepper {f.__qualname__}>", "exec"), f.__globals__, ns)
     return ns[cls_name].__dict__[fn.name] if cls_name else ns[fn.name]
 
@@ -125,6 +206,8 @@ class Thread:
                 return
             except StopIteration as e:        # a function without statements
                 self.results.append(e.value)
+            except Exception as e:  # noqa      (the call raised: that is its result)
+                self.results.append(e)
         self.gen = None
         self.done = True
 
@@ -143,6 +226,11 @@ class Thread:
                 self.blocked_on = y[1]
         except StopIteration as e:
             self.results.append(e.value)
+            self._advance_call()
+        except StepHang:
+            raise
+        except Exception as e:  # noqa          (the call raised: that is its result)
+            self.results.append(e)
             self._advance_call()
 
 
